@@ -201,7 +201,7 @@ func Correlation(x, y, weights []float64) float64 {
 		sxx -= xcompensation * xcompensation / float64(len(x))
 		syy -= ycompensation * ycompensation / float64(len(x))
 
-		return (sxy - xcompensation*ycompensation/float64(len(x))) / math.Sqrt(sxx*syy)
+		return clampCorrelation((sxy - xcompensation*ycompensation/float64(len(x))) / math.Sqrt(sxx*syy))
 
 	}
 
@@ -227,7 +227,14 @@ func Correlation(x, y, weights []float64) float64 {
 	sxx -= xcompensation * xcompensation / sumWeights
 	syy -= ycompensation * ycompensation / sumWeights
 
-	return (sxy - xcompensation*ycompensation/sumWeights) / math.Sqrt(sxx*syy)
+	return clampCorrelation((sxy - xcompensation*ycompensation/sumWeights) / math.Sqrt(sxx*syy))
+}
+
+// clampCorrelation limits a computed correlation coefficient to the
+// interval [-1, 1], which it can leave by a rounding error when the
+// data are exactly linearly related. A NaN is returned unchanged.
+func clampCorrelation(r float64) float64 {
+	return math.Max(-1, math.Min(1, r))
 }
 
 // Kendall returns the weighted Tau-a Kendall correlation between the
